@@ -26,9 +26,19 @@ def make_case(inp):
         obs = V.run_validate(cid, spec, text, limit)
     else:
         decoy = V.encode(spec, inp["decoy"]) if inp.get("decoy") else None
-        obs = V.run_reader(cid, spec, text, mode, limit, decoy)
+        obs = V.run_reader(cid, spec, text, mode, limit, decoy, prepass=bool(inp.get("prepass")))
+    if api == "rows":
+        # cutplace.rows() - the public function - on a freshly built CID must behave like `with Reader(...)`
+        fn = V.run_rows_fn(V.build_cid(spec), spec, text, mode, limit)
+        if (fn["outs"], fn["raised"]) != (obs["outs"], obs["raised"]):
+            obs["fn_mismatch"] = "cutplace.rows(on_error=%r) gives %r / raises %r but `with Reader(...)` gives %r / raises %r" % (
+                mode, fn["outs"][-2:], fn["raised"], obs["outs"][-2:], obs["raised"])
     obs["raw_fault"] = raw_fault
     coq_in = P(V.coq_cid(spec), B(api == "validate"), V.MODES[mode], O(limit, Nat), L(raws, lambda r: L(r, S)), B(raw_fault))
     n_err = sum(1 for o in obs["outs"] if "err" in o) + (1 if obs["raised"] else 0)
-    tags = [spec["format"], mode, api, "errors" if n_err else "clean", "fault" if raw_fault else "nofault", "rows%d" % len(raws)]
+    tags = [spec["format"], mode, api, "errors" if n_err else "clean", "fault" if raw_fault else "nofault", "rows%d" % len(raws)] + (["second-pass"] if inp.get("prepass") else [])
     return {"coq": P(coq_in, V.coq_run_obs(obs)), "obs": obs, "raws": raws, "nontrivial": len(raws) > spec.get("header", 0), "tags": tags}
+
+
+def extra_oracle(inp, obs):
+    return obs.get("fn_mismatch")
